@@ -181,7 +181,7 @@ func (r *runner) runChain(ch *chain) {
 	root := removeGen(name)
 	base := projgen.ImportBase(name)
 	for _, st := range ch.Steps {
-		p := projgen.C17Render(root, base, st.Row, stepSeed(ch, st), ch.NFiles, nil)
+		p := projgen.C17Render(root, base, st.Row, stepSeed(ch, st), ch.NFiles)
 		occ, err := projgen.C17CheckOccurs(p)
 		if err != nil {
 			vlib.Infra("renderer self-check failed (harness bug, not a violation) start=%d step=%d: %v", ch.Start, st.Step, err)
@@ -212,7 +212,7 @@ func (r *runner) runChain(ch *chain) {
 			continue
 		}
 		r.mu.Lock()
-		r.fails = append(r.fails, &failure{ch: ch, step: st, out: out, project: p})
+		r.fails = append(r.fails, &failure{ch: ch, step: st, out: out, project: p, quirk: st.Row.Probe()})
 		r.mu.Unlock()
 		return // later steps on a broken directory say nothing
 	}
@@ -221,73 +221,11 @@ func (r *runner) runChain(ch *chain) {
 	}
 }
 
-type probe struct {
-	quirk string
-	ch    *chain
-}
-
-// quirkProbes picks, for every known-defect trigger, the first row that has the
-// factors the trigger needs (a different row for each trigger where possible).
-func quirkProbes(chains []*chain) []probe {
-	var out []probe
-	used := map[int]bool{}
-	for _, q := range projgen.C17QuirkNames {
-		var pick *chain
-		for _, ch := range chains {
-			if projgen.C17QuirkApplies(q, ch.Steps[0].Row) {
-				if pick == nil {
-					pick = ch
-				}
-				if !used[ch.Start] {
-					pick = ch
-					break
-				}
-			}
-		}
-		if pick != nil {
-			used[pick.Start] = true
-			out = append(out, probe{q, pick})
-		}
-	}
-	return out
-}
-
-// runProbe generates the row once more, this time WITH the known-defect trigger.
-func (r *runner) runProbe(p probe) {
-	st := p.ch.Steps[0]
-	name := "c17_q_" + p.quirk
-	root := removeGen(name)
-	pr := projgen.C17Render(root, projgen.ImportBase(name), st.Row, stepSeed(p.ch, st), p.ch.NFiles, projgen.C17Quirks{p.quirk: true})
-	if _, err := projgen.C17CheckOccurs(pr); err != nil {
-		vlib.Infra("renderer self-check failed (harness bug) for probe %s: %v", p.quirk, err)
-	}
-	if err := pr.Write(); err != nil {
-		vlib.Infra("write project: %v", err)
-	}
-	out := pr.Generate(true)
-	r.c.AddEvals(1)
-	r.c.Class("probe:" + p.quirk)
-	r.mu.Lock()
-	defer r.mu.Unlock()
-	r.points++
-	if out.Infra() {
-		r.infra = append(r.infra, fmt.Sprintf("probe %s: %s %s", p.quirk, out.Kind, out.Detail))
-		return
-	}
-	if out.Ok() && out.Compiles() {
-		if os.Getenv("C17_KEEP") == "" {
-			_ = os.RemoveAll(root)
-		}
-		return
-	}
-	r.fails = append(r.fails, &failure{ch: p.ch, step: st, out: out, project: pr, quirk: p.quirk})
-}
-
 // fresh runs one row in a scratch directory of its own and reports the outcome.
-func fresh(tag string, row projgen.C17Row, seed int64, nfiles int, build bool, quirks projgen.C17Quirks) projgen.C17Outcome {
+func fresh(tag string, row projgen.C17Row, seed int64, nfiles int, build bool) projgen.C17Outcome {
 	name := "c17_dd_" + tag
 	root := removeGen(name)
-	p := projgen.C17Render(root, projgen.ImportBase(name), row, seed, nfiles, quirks)
+	p := projgen.C17Render(root, projgen.ImportBase(name), row, seed, nfiles)
 	if _, err := projgen.C17CheckOccurs(p); err != nil {
 		return projgen.C17Outcome{Kind: "infra", Detail: err.Error()}
 	}
@@ -311,7 +249,7 @@ func minimise(id string, row projgen.C17Row, seed int64, nfiles int, kind string
 		mu.Lock()
 		runs++
 		mu.Unlock()
-		o := fresh(id+"_"+tag, r, seed, nfiles, buildRun, nil)
+		o := fresh(id+"_"+tag, r, seed, nfiles, buildRun)
 		return !o.Infra() && o.Kind == kind
 	}
 	with := func(r projgen.C17Row, off []string) projgen.C17Row {
@@ -416,7 +354,7 @@ func (r *runner) report(fs []*failure) {
 		id := fmt.Sprintf("%d", gi)
 		if f.step.Step > 1 && f.quirk == "" {
 			// does the row fail on a clean directory as well?
-			o := fresh(id+"_f", f.step.Row, seed, f.ch.NFiles, f.out.BuildRun, nil)
+			o := fresh(id+"_f", f.step.Row, seed, f.ch.NFiles, f.out.BuildRun)
 			if o.OK() {
 				evolutionOnly = true
 			}
@@ -424,7 +362,7 @@ func (r *runner) report(fs []*failure) {
 		switch {
 		case f.quirk != "":
 			label = "quirk:" + f.quirk
-			scen["note"] = "probe of a construct that is left out of the enumerated rows because it triggers a known defect"
+			scen["note"] = "probe row of a construct that is pinned to FALSE in the cover because it triggers a known defect; everything else in the row is at its default"
 		case evolutionOnly:
 			label = "evolution(" + f.step.Row.Label(changed(f.ch.Steps[f.step.Step-2].Row, f.step.Row)) + ")"
 			scen["note"] = "the row generates and compiles in a clean directory; it fails only on top of the previous step's output"
@@ -437,7 +375,7 @@ func (r *runner) report(fs []*failure) {
 			if !complete {
 				label += "(not minimal)"
 			}
-			mp := projgen.C17Render("", "verifharness/gen/c17_min", mrow, seed, f.ch.NFiles, nil)
+			mp := projgen.C17Render("", "verifharness/gen/c17_min", mrow, seed, f.ch.NFiles)
 			scen["minimal_factors"] = min
 			scen["minimal_row"] = mrow
 			scen["minimal_files"] = mp.Files
@@ -527,13 +465,7 @@ func main() {
 			vlib.Infra("C17_ROW: %v", err)
 		}
 		os.Setenv("C17_KEEP", "1")
-		quirks := projgen.C17Quirks{}
-		for _, q := range strings.Split(os.Getenv("C17_QUIRKS"), ",") {
-			if q != "" {
-				quirks[q] = true
-			}
-		}
-		o := fresh("row", row, vlib.Seed(), 2, true, quirks)
+		o := fresh("row", row, vlib.Seed(), 2, true)
 		b, _ := json.MarshalIndent(o, "", " ")
 		fmt.Printf("%s\n%s\n", b, o.Detail)
 		os.Exit(0)
@@ -545,19 +477,14 @@ func main() {
 	chains := runTLC(c)
 	r := &runner{c: c, features: map[string]bool{}, buildEvery: 3}
 	t0 := time.Now()
-	probes := quirkProbes(chains)
-	projgen.Parallel(len(chains)+len(probes), 8, func(i int) {
-		if i < len(chains) {
-			r.runChain(chains[i])
-		} else {
-			r.runProbe(probes[i-len(chains)])
-		}
-	})
+	projgen.Parallel(len(chains), 8, func(i int) { r.runChain(chains[i]) })
 	var probed []string
-	for _, p := range probes {
-		probed = append(probed, fmt.Sprintf("%s@row%d", p.quirk, p.ch.Start))
+	for _, ch := range chains {
+		if p := ch.Steps[0].Row.Probe(); p != "" {
+			probed = append(probed, fmt.Sprintf("%s@row%d", p, ch.Start))
+		}
 	}
-	c.Set("known_defect_probes", probed)
+	c.Set("known_defect_probe_rows", probed)
 	fmt.Fprintf(os.Stderr, "c17: %d generate steps in %.1fs, %d failing, %d infra\n", r.points, time.Since(t0).Seconds(), len(r.fails), len(r.infra))
 	if len(r.infra) > 0 && len(r.infra)*5 > r.points {
 		vlib.Infra("too many points could not be decided (timeouts / crashes of the tools): %s", strings.Join(r.infra, "; "))
@@ -574,7 +501,7 @@ func main() {
 	c.Set("features_observed_in_rendered_schemas", feats)
 	c.Set("undecided_points", len(r.infra))
 	c.Set("exhaustive", false)
-	c.Set("rule", "rows of spec/ProjectCover.tla: pairwise cover of 41 boolean + 4 multi-valued factors (schema features x documented configuration), checked pairwise by TLC (ASSUME CoverOK), + seeded rows (+ full factorial over CubeFactors in the thorough tier); every Generate step TLC enumerates (incl. evolutions in one directory) is replayed through the real generator + go build + go vet; a class is distinct by its multi-valued part, layouts and the numbers of features / options switched on")
+	c.Set("rule", "rows of spec/ProjectCover.tla: pairwise cover of 41 boolean + 4 multi-valued factors (+ 7 known-defect constructs pinned to FALSE in the cover, one probe row each) (schema features x documented configuration), checked pairwise by TLC (ASSUME CoverOK), + seeded rows (+ full factorial over CubeFactors in the thorough tier); every Generate step TLC enumerates (incl. evolutions in one directory) is replayed through the real generator + go build + go vet; a class is distinct by its multi-valued part, layouts and the numbers of features / options switched on")
 	r.report(r.fails)
 	c.Finish()
 }
